@@ -6,7 +6,6 @@ import (
 	"fmt"
 	"runtime"
 	"runtime/debug"
-	"sort"
 	"strings"
 	"sync"
 	"testing"
@@ -151,6 +150,12 @@ func (r *seededReader) Read(p []byte) (int, error) {
 	return len(p), nil
 }
 
+// WorkerSites / WorkerPairs accumulate, per worker process, the yield sites
+// reached and the ordered site pairs seen (a goroutine released at site A while
+// another was parked at site B); emitted once at the end of the chunk.
+var WorkerSites = map[string]struct{}{}
+var WorkerPairs = map[string]struct{}{}
+
 var hookInstalled bool
 var curSim *sched.Sim
 
@@ -223,11 +228,11 @@ func Bubble(t *testing.T, c *choice.Stream, r *Result, opt RunOpt, setup func(e 
 			if opt.KeepTrace {
 				r.Trace = sim.TraceLog
 			}
-			if opt.Tier == "sites" {
-				for s := range sim.SiteHits {
-					r.SiteSet = append(r.SiteSet, s)
-				}
-				sort.Strings(r.SiteSet)
+			for s := range sim.SiteHits {
+				WorkerSites[s] = struct{}{}
+			}
+			for s := range sim.PairHits {
+				WorkerPairs[s] = struct{}{}
 			}
 			if sim.AmbigSpawn > 0 {
 				r.Probe("ambiguous_spawn")
